@@ -395,3 +395,11 @@ def run(loader, R, tier):
     R.floor("R1.2 floating kernels", R.instances.get("R1.2", 0), 2)
     R.floor("R1.3 unordered loops", R.instances.get("R1.3", 0), 1)
     R.info["classes"] = pairs
+
+
+MANIFEST = dict(
+    technique='static footprint analysis: members read by __hash__ vs members compared on every true path of __eq__ (libTooling facts + structured-path enumeration)',
+    text='Decides, for every concrete class deriving Basic (all library TUs, resolved through CRTP bases), that __hash__ is a function of the equivalence class of __eq__: type test on every true path, hashed members ⊆ compared members on every true path, zero-normalising float kernel, commutative folding of unordered containers, hash cache written only by Basic::hash(). One run covers all pairs of objects by induction on structure. Does not decide hash quality or that canonicalisation makes equal values structurally equal (C03/C04).',
+    note='Trusted: clang 14 AST; the table of equality-respecting library calls (eq, unified_eq, ==); accessor inlining. Loops inside __eq__ are assumed to perform their comparisons.',
+    ref='§2 C01',
+)
